@@ -25,22 +25,29 @@ structure RS where
   parity : Nat → Nat → List Bytes → List Bytes
   recover : Nat → Nat → List (Option Bytes) → Option (List Bytes)
 
-/-- `reedsolomon.New(k, p)` succeeds (GF(2^8) codec; more than 256 shards selects another codec
-with extra size constraints and is outside this model). -/
-def rsNewOk (k p : Nat) : Bool := decide (0 < k) && decide (k + p ≤ 256)
+/-- `reedsolomon.New(k, p)` succeeds: up to 256 shards the GF(2^8) codec (parity may be 0); above,
+klauspost switches to the Leopard GF(2^16) codec, which needs at least one parity shard and at most
+65536 shards. -/
+def rsNewOk (k p : Nat) : Bool :=
+  decide (0 < k) && (decide (k + p ≤ 256) || (decide (0 < p) && decide (k + p ≤ 65536)))
 
 /-- `n` consecutive pieces of `size` bytes. -/
 def chunk (size : Nat) : Nat → Bytes → List Bytes
   | 0, _ => []
   | n + 1, d => d.take size :: chunk size n (d.drop size)
 
-/-- klauspost `Split`: `perShard = ceil(len/k)`, the data zero-padded to `k * perShard` and cut
-into `k` shards (with a single shard in total the data is returned as it is). -/
+/-- Bytes per shard in klauspost `Split`: `ceil(len/k)`, rounded up to a multiple of 64 by the
+Leopard codec (more than 256 shards). -/
+def perShard (len k p : Nat) : Nat :=
+  let per := (len + k - 1) / k
+  if k + p > 256 then ((per + 63) / 64) * 64 else per
+
+/-- klauspost `Split`: the data zero-padded to `k * perShard` and cut into `k` shards (with a
+single shard in total the data is returned as it is). -/
 def splitData (data : Bytes) (k p : Nat) : List Bytes :=
   if k + p = 1 then [data]
-  else
-    let per := (data.length + k - 1) / k
-    chunk per k (data ++ List.replicate (k * per - data.length) 0)
+  else chunk (perShard data.length k p) k
+    (data ++ List.replicate (k * perShard data.length k p - data.length) 0)
 
 /-- `reedsolomon.EncodeData(data, k, p)`. -/
 def encodeData (rs : RS) (data : Bytes) (k p : Nat) : Out (List Bytes) :=
@@ -146,7 +153,10 @@ def construct {H : Type} [DecidableEq H] (cfg : Cfg) (f : HashFns H) (rs : RS)
       else
         let (root, tree) := merkleNew f (full.map (leafOf cfg.shardingLeafProto))
         match rootUnit cfg units with
-        | none => .panic          -- units[0] == nil: nil pointer dereference
+        | none =>
+          -- before a2bceaf: units[0] == nil, nil pointer dereference; since: no present unit leaves
+          -- the zero root, which is compared with the computed one ("wrong message root hash")
+          if cfg.rootFromPresent then .err .root else .panic
         | some u0 =>
           if u0.root ≠ root then .err .root
           else
@@ -237,7 +247,11 @@ def Sched.peerForShard (s : Sched) (publisher : Bytes) (idx : Nat) : Except VErr
     | none => .error .publisherUnknown
     | some pubIdx =>
       let peerIdx := if idx ≥ pubIdx then idx + 1 else idx
-      .ok (s.peers.getD peerIdx [])
+      -- `s.peers[peerIdx]`: in range for every scheduler NewScheduler builds (k + c = N - 1); Go
+      -- would panic otherwise, the model refuses the index
+      match s.peers[peerIdx]? with
+      | some q => .ok q
+      | none => .error .indexRange
 
 /-- `ShardIndexForPublisher(publisher)`: the local peer's shard index. -/
 def Sched.shardIndexFor (s : Sched) (publisher : Bytes) : Except VErr Nat :=
